@@ -463,6 +463,64 @@ func checkC16(c *Ctx) {
 			c.Sample(uniCase{i, blend, k, desc})
 		}
 	})
+	// (d) unions the library builds itself from one object at several positions (Multi2D, LineOf2D): the object is NOT centred
+	// on its own origin (a pad next to its reference pin), so each copy's box has to be the object's box moved, not a box
+	// of the same size centred on the position
+	parallelFor(c.Pick(400, 4000), func(i int) {
+		r := c.Rng("multi", i)
+		scale := r.LogR(0.1, 50)
+		var base sdf.SDF2
+		switch r.I(3) {
+		case 0:
+			base, _ = sdf.Circle2D(scale * r.R(0.3, 1))
+		case 1:
+			base = sdf.Box2D(v2.Vec{X: scale * r.R(0.3, 2), Y: scale * r.R(0.3, 2)}, 0)
+		default:
+			base = sdf.Box2D(v2.Vec{X: scale * r.R(0.5, 2), Y: scale * r.R(0.5, 2)}, scale*0.1)
+		}
+		off := v2.Vec{X: r.R(-6, 6) * scale, Y: r.R(-6, 6) * scale}
+		obj := sdf.Transform2D(base, sdf.Translate2d(off).Mul(sdf.Rotate2d(r.R(0, 6.28))))
+		var u sdf.SDF2
+		var ps v2.VecSet
+		var desc string
+		if r.Bool() {
+			for j := 0; j < r.IR(2, 9); j++ {
+				ps = append(ps, v2.Vec{X: r.R(-8, 8) * scale, Y: r.R(-8, 8) * scale})
+			}
+			u, desc = sdf.Multi2D(obj, ps), fmt.Sprintf("Multi2D of an object %v off its origin at %d positions", off, len(ps))
+		} else {
+			p0, p1 := v2.Vec{X: r.R(-8, 8) * scale, Y: r.R(-8, 8) * scale}, v2.Vec{X: r.R(-8, 8) * scale, Y: r.R(-8, 8) * scale}
+			pat := pickOne(r, []string{"xxxx", "x.x.x", "xx..xx", "xx"})
+			u, desc = sdf.LineOf2D(obj, p0, p1, pat), fmt.Sprintf("LineOf2D(%q) of an object %v off its origin", pat, off)
+			ps = nil // positions are the library's business here: only pruned against exhaustive is compared
+		}
+		un, ok := u.(*sdf.UnionSDF2)
+		if !ok {
+			return
+		}
+		c.Eval(1)
+		bb := un.BoundingBox()
+		for q := 0; q < 200; q++ {
+			p := v2.Vec{X: r.R(bb.Min.X, bb.Max.X), Y: r.R(bb.Min.Y, bb.Max.Y)}
+			if q%2 == 1 && len(ps) > 0 { // inside / next to one of the copies
+				p = ps[r.I(len(ps))].Add(off).Add(v2.Vec{X: r.N(), Y: r.N()}.MulScalar(scale))
+			}
+			fast, slow := un.Evaluate(p), un.EvaluateSlow(p)
+			want := slow
+			if len(ps) > 0 {
+				want = math.Inf(1)
+				for _, t := range ps {
+					want = math.Min(want, obj.Evaluate(p.Sub(t)))
+				}
+			}
+			if fast != slow || math.Abs(fast-want) > 1e-9*(scale+math.Abs(want)) {
+				c.Violate("", fmt.Sprintf("Union2D pruned!=exhaustive %s at p=%v: Evaluate=%g EvaluateSlow=%g, minimum over the copies=%g", desc, p, fast, slow, want),
+					map[string]any{"kind": "multi2d", "index": i, "p": p})
+				return
+			}
+		}
+		c.Distinct(fmt.Sprintf("multi/%d", i%40))
+	})
 	c.Floor(40)
 }
 
